@@ -237,10 +237,17 @@ def _classification(fn):
     return text, stuck_filter, wtext, normal_name, stuck_name
 
 
+def _is_nonempty_test(test, expr):
+    """is `test` one of the usual spellings of `<expr> is non-empty`"""
+    src = ast.unparse(test)
+    return src in (expr, f"len({expr}) > 0", f"len({expr}) != 0", f"len({expr}) >= 1", f"0 < len({expr})", f"bool({expr})", f"{expr} != []", f"not not {expr}")
+
+
 def _warns_loop_bound(fn, logs_expr):
-    """is there `if <logs_expr>.bounded_loops: warn_code(LOOP_BOUND, ...)` at the top level of fn (not nested in a loop/try)"""
+    """is there `if <logs_expr>.bounded_loops [is non-empty]: warn_code(LOOP_BOUND, ...)` at the top level of fn
+    (not nested in a loop / try / other condition)"""
     for st in fn.body:
-        if isinstance(st, ast.If) and ast.unparse(st.test) == f"{logs_expr}.bounded_loops" and not st.orelse:
+        if isinstance(st, ast.If) and _is_nonempty_test(st.test, f"{logs_expr}.bounded_loops") and not st.orelse:
             if _contains(st.body, lambda n: isinstance(n, ast.Call) and ast.unparse(n.func) == "warn_code" and n.args and ast.unparse(n.args[0]) == "LOOP_BOUND"):
                 return True
     return False
